@@ -106,6 +106,8 @@ void ezc3d::c3d::write(const std::string& filePath) const
         throw std::range_error("The number of points, analogs or frames does not fit in the header");
 
     std::fstream f(filePath, std::ios::out | std::ios::binary);
+    if (!f.is_open())
+        throw std::ios_base::failure("Could not open the c3d file to write");
 
     // Write the header
     this->header().write(f);
@@ -124,6 +126,9 @@ void ezc3d::c3d::write(const std::string& filePath) const
     this->data().write(f);
 
     f.close();
+    // Any write which failed (disk full, size limit, etc.) left the stream in a failed state
+    if (f.fail())
+        throw std::ios_base::failure("Could not write the c3d file");
 }
 
 void ezc3d::c3d::readFile(unsigned int nByteToRead, char * c, int nByteFromPrevious,
